@@ -71,7 +71,7 @@ var pureFuncs = map[string]bool{
 
 // noEffectFuncs have results we do not model and no effect on modelled state.
 var noEffectFuncs = map[string]bool{
-	"(*log.Logger).Print": true, "(*log.Logger).Println": true, "(*log.Logger).Printf": true,
+	"(*log.Logger).Print": true, "(*log.Logger).Println": true, "(*log.Logger).Printf": true, "log.Println": true, "log.Printf": true, "log.Print": true,
 	"time.Now": true, "ssa:deferstack": true, "(*sync.WaitGroup).Done": true,
 	"(*atomic.Uint64).Add": true, "atomic.AddUint64": true,
 	"(http.Header).Set": true, "(http.Header).Add": true, "(http.Header).Del": true,
@@ -551,6 +551,16 @@ func (fx *FuncCtx) applyContract(st *State, ct *Contract, names []string, args [
 	// frame
 	switch {
 	case ct.Pure:
+	case ct.ModGoHeap:
+		// keep the ghost components, forget every Go heap location
+		saved := map[string]string{}
+		for _, g := range fx.eng.specs.Ghosts {
+			saved["G$"+g.Name] = fx.heapGet(st, "G$"+g.Name, g.Sort)
+		}
+		fx.havocAll(st)
+		for c, t := range saved {
+			st.Heap[c] = t
+		}
 	case ct.ModAll || (!ct.ModSet && ct.Kind != "lib" && ct.Kind != "iface"):
 		fx.havocAll(st)
 	default:
@@ -582,6 +592,7 @@ func (fx *FuncCtx) applyContract(st *State, ct *Contract, names []string, args [
 	}
 	// higher-order library function: the function value passed for `invokes p` is called here,
 	// so its contract's preconditions are checked in the caller's state and its effects apply
+	var cbRes *Val
 	if ct.Invokes != "" {
 		if fv := vars[ct.Invokes]; fv != nil && fv.Fn != nil {
 			if cct := fx.eng.contractFor(fv.Fn); cct != nil {
@@ -607,7 +618,7 @@ func (fx *FuncCtx) applyContract(st *State, ct *Contract, names []string, args [
 				if fv.Fn.Signature.Results().Len() == 1 {
 					crt = fv.Fn.Signature.Results().At(0).Type()
 				}
-				fx.applyContract(st, cct, cn, ca, crt, cct.Key, pos, fv.Fn)
+				cbRes = fx.applyContract(st, cct, cn, ca, crt, cct.Key, pos, fv.Fn)
 			} else {
 				fx.note("function value passed to %s has no contract: its effects are havocked", short)
 				fx.havocAll(st)
@@ -645,8 +656,27 @@ func (fx *FuncCtx) applyContract(st *State, ct *Contract, names []string, args [
 			}
 		}
 	}
+	if cbRes != nil {
+		// the result of the invoked function value, for clauses of the higher-order library function
+		if cbRes.Tup != nil {
+			for i, r := range cbRes.Tup {
+				post[fmt.Sprintf("cbret%d", i)] = r
+			}
+		} else {
+			post["cbret0"] = cbRes
+		}
+	}
 	envPost := &Env{fx: fx, st: st, old: pre, vars: post, pkg: pkg, errs: &fx.clauseErrs, lets: ct.Lets, recs: recs}
 	for _, c := range ct.Ensures {
+		if cond, names, ok := restoredGuard(c.Expr); ok {
+			// imp(cond, restored(g1, g2, ...)): under cond the named ghosts are what they were before the call
+			// (whatever an invoked function value did to them) - an assignment, not an assumption
+			cv := envPost.eval(cond)
+			if cv.T != "" && cv.Bad == "" {
+				fx.restoreGhostsWhen(st, pre, cv.T, names)
+				continue
+			}
+		}
 		if cond, ok := unchangedGuard(c.Expr); ok {
 			// imp(cond, unchanged()): under cond the callee leaves the heap as it was
 			ct := envPost.eval(cond)
@@ -926,6 +956,9 @@ func (fx *FuncCtx) frameCheck(st *State, k int, pos token.Pos) {
 	}
 	comps := make([]string, 0, len(st.Heap))
 	for c := range st.Heap {
+		if ct.ModGoHeap && !strings.HasPrefix(c, "G$") {
+			continue
+		}
 		comps = append(comps, c)
 	}
 	sort.Strings(comps)
@@ -1344,4 +1377,51 @@ func (fx *FuncCtx) plainVariadic(st *State, a ssa.Value, v *Val) ([]*Val, bool) 
 		out = append(out, &Val{T: fmt.Sprintf("(select (select %s (sl_arr %s)) (+ (sl_off %s) %d))", h, v.T, v.T, i), Ty: arr.Elem()})
 	}
 	return out, true
+}
+
+// restoredGuard recognises imp(cond, restored(g1, ..., gn)) over ghost names.
+func restoredGuard(x ast.Expr) (ast.Expr, []string, bool) {
+	c, ok := x.(*ast.CallExpr)
+	if !ok || len(c.Args) != 2 {
+		return nil, nil, false
+	}
+	if id, ok := c.Fun.(*ast.Ident); !ok || id.Name != "imp" {
+		return nil, nil, false
+	}
+	u, ok := c.Args[1].(*ast.CallExpr)
+	if !ok || len(u.Args) == 0 {
+		return nil, nil, false
+	}
+	if id, ok := u.Fun.(*ast.Ident); !ok || id.Name != "restored" {
+		return nil, nil, false
+	}
+	var names []string
+	for _, a := range u.Args {
+		id, ok := a.(*ast.Ident)
+		if !ok {
+			return nil, nil, false
+		}
+		names = append(names, id.Name)
+	}
+	return c.Args[0], names, true
+}
+
+// restoreGhostsWhen sets each named ghost to ite(cond, its value before the call, its current value).
+func (fx *FuncCtx) restoreGhostsWhen(st, pre *State, cond string, names []string) {
+	for _, n := range names {
+		g, ok := fx.eng.specs.Ghosts[n]
+		if !ok {
+			fx.clauseErrs = append(fx.clauseErrs, "restored: unknown ghost "+n)
+			continue
+		}
+		comp := "G$" + n
+		was := fx.heapGet(pre, comp, g.Sort)
+		now := fx.heapGet(st, comp, g.Sort)
+		if was == now {
+			continue
+		}
+		h := fx.declare("rb", fx.theorySort(g.Sort))
+		fx.emit("(assert (= " + h + " (ite " + cond + " " + was + " " + now + ")))")
+		st.Heap[comp] = h
+	}
 }
